@@ -18,5 +18,5 @@ cd "$REPO"
 ulimit -v 16000000 2>/dev/null || true
 LD_LIBRARY_PATH=$SYSROOT/lib CARGO_NET_OFFLINE=true RUSTFLAGS="$FLAGS" \
   RUSTC_WORKSPACE_WRAPPER=$DRV CHESSFACTS_OUT=$OUT CHESSFACTS_CONFIG=$CONFIG \
-  CARGO_TARGET_DIR=$TGT timeout -k 5 ${CHESSFACTS_TIMEOUT:-240} cargo +nightly check --offline --lib >"$OUT/cargo.log" 2>&1 || { cat "$OUT/cargo.log" >&2; exit 2; }
+  CARGO_TARGET_DIR=$TGT timeout -k 5 ${CHESSFACTS_TIMEOUT:-900} cargo +nightly check --offline --lib >"$OUT/cargo.log" 2>&1 || { cat "$OUT/cargo.log" >&2; exit 2; }
 [ -s "$OUT/chess.json" ] || { echo "no fact file written" >&2; exit 2; }
